@@ -24,7 +24,14 @@ matches inside the two SMWPM decoders are not modelled.  The whole decoders are 
 behind a recording proxy over the parameter corners of the property and (b) EXHAUSTIVELY on every reachable syndrome
 array of the smallest lattices for T <= 2 (T <= 3 for the 2x2 torus); every output goes through the verified monitor
 `synd(stabilizers, recovery) == xorAll rows` evaluated in Python and by the Lean driver, plus: never raises, never
-returns None, app never logs 'RECOVERY DOES NOT RETURN TO CODESPACE', custom_values/success consistency."""
+returns None, app never logs 'RECOVERY DOES NOT RETURN TO CODESPACE', custom_values/success consistency.
+(c) The property is about EVERY call, so also about calls on a decoder object that has been used before: one instance
+is driven through histories mixing fault-tolerant decodes that end in a time-like failure (flip patterns wrapping the
+periodic time axis, taken from the model's `mtp`), single-step / ideal decodes and app runs, on codes of different
+sizes, while the caller overwrites returned arrays in place; every answer goes through the same monitors, is compared
+with a fresh instance, may share no array with another answer / the decoder / its arguments, and may not change after
+it was returned."""
+import collections
 import contextlib
 import itertools
 import json
@@ -49,6 +56,10 @@ RULE = ('(a) exact correspondence: _tparity on T in -4..9 x a,b in -12..12; _mea
         'decode_ftp called directly on EVERY reachable syndrome array of the smallest lattices (per class of q and '
         'support of the error model) for T <= 2 (2x2 torus: T <= 3). Monitor on every output: synd(S, recovery) == XOR '
         'of rows (Python and Lean), no exception, no None, no codespace warning, custom_values/success consistent. '
+        '(c) decoder-INSTANCE histories: one decoder object reused over decode_ftp (T>1 incl. constructed time-like '
+        'failures, T=1) / decode / run_once_ftp / run_once / run_ftp calls on codes of different sizes with the caller '
+        'overwriting returned arrays in place: the same monitors on every answer, equality with a fresh instance, no '
+        'shared arrays, no retroactive change of earlier answers. '
         'non-trivial = some syndrome bit set / non-default branch')
 
 TL = 120  # seconds per real decode (decoders can hang after a mutation; typical worst case here is a few seconds)
@@ -259,7 +270,7 @@ def result_wire(out):
     return 'su={} rec={} cv={}'.format(su, 'N' if out.recovery is None else bits(out.recovery), cv)
 
 
-def property_failures(fam, S, T, itp, rows, out):
+def property_failures(fam, S, T, itp, rows, out, ideal=False):
     """the clauses of C03 evaluated on one real decoder answer; returns a list of strings (empty = holds)"""
     from qecsim.model import DecodeResult
     bad = []
@@ -277,7 +288,7 @@ def property_failures(fam, S, T, itp, rows, out):
             bad.append('recovery has shape {}'.format(r.shape))
         elif not np.array_equal(synd(S, r.astype(int)), xor_rows(rows)):
             bad.append('recovery does not have the syndrome of the total error (XOR of all rows)')
-    if fam == 'toric':
+    if fam == 'toric' and not ideal:
         if not isinstance(out, DecodeResult):
             bad.append('rotated-toric decode_ftp did not return a DecodeResult')
         else:
@@ -309,7 +320,12 @@ def unmat(s):
 
 
 def run_recipe(rc):
-    """re-run one recorded decoder call on the current tree; returns (failures, outcome-text)"""
+    """re-run one recorded decoder call (or decoder-instance history) on the current tree; returns (failures,
+    outcome-text)"""
+    if 'history' in rc:
+        fails = run_history(rc['history'], rc.get('upto'))
+        return ['step {}: {}'.format(k, w) for k, w, _ in fails], 'history of {} steps on one {} decoder'.format(
+            len(rc['history']['steps']), rc['history']['family'])
     fam = rc['family']; code = make_code(fam, rc['size']); dec = make_decoder(fam, rc['eta'], rc['itp'])
     rows = unmat(rc['rows']); meas = None if rc['meas'] == 'N' else [r for r in unmat(rc['meas'])]
     S = code.stabilizers
@@ -341,7 +357,7 @@ class Checker:
             self.smat[k] = (code.stabilizers, mat(code.stabilizers))
         return self.smat[k]
 
-    def check(self, fam, size, code, T, itp, rows, meas, out, exc, rc, part):
+    def check(self, fam, size, code, T, itp, rows, meas, out, exc, rc, part, ideal=False):
         ctx, rec = self.ctx, self.rec
         S, Sw = self.S(fam, size, code)
         key = '{}SMWPM.decode_ftp'.format('RotatedPlanar' if fam == 'planar' else 'RotatedToric')
@@ -349,7 +365,7 @@ class Checker:
             ctx.monitor_fail('decode_ftp raised {!r} on an input inside the stated domain'.format(exc), rc,
                              key=key + ':raises')
             return
-        bad = property_failures(fam, S, T, itp, rows, out)
+        bad = property_failures(fam, S, T, itp, rows, out, ideal=ideal)
         for b in bad:
             ctx.monitor_fail(b, rc, key=key + ':' + b.split(' ')[0])
         from qecsim.model import DecodeResult
@@ -871,6 +887,412 @@ def part_exhaustive(ctx, chk, rec):
     return total, domains
 
 
+# ----------------------------------------------------------------------------------------------- part (c) histories
+
+HIST_SIZES = {'toric': [(2, 2), (2, 4), (4, 2), (4, 4), (2, 6), (6, 2), (4, 6), (6, 4)],
+              'planar': [(3, 3), (3, 4), (4, 3), (3, 5), (5, 3), (4, 4), (4, 5)]}
+HIST_TL = 30
+
+
+def _meas_wire(meas):
+    return 'N' if meas is None else 'E' if len(meas) == 0 else mat(meas)
+
+
+def _meas_unwire(s):
+    return None if s == 'N' else [] if s == 'E' else [r for r in unmat(s)]
+
+
+def make_proxy2(inner, rec=None):
+    """recording wrapper with BOTH entry points (decode / decode_ftp) around one persistent decoder instance; every
+    answer is snapshotted at return time (what the caller saw), so later in-place changes are visible"""
+    from qecsim.model import Decoder, DecoderFTP, DecodeResult
+
+    class Proxy2(Decoder, DecoderFTP):
+        def __init__(self):
+            self.calls = []   # dicts: mode, T, rows, kw, out, exc, snap, stages
+
+        def _do(self, mode, code, T, rows, f, kw):
+            c = {'mode': mode, 'T': T, 'rows': np.array(rows, dtype=int).reshape(T, -1), 'kw': dict(kw), 'out': None,
+                 'exc': None, 'snap': None}
+            self.calls.append(c)
+            if rec is not None:
+                rec.reset()
+            try:
+                with core.TimeLimit(HIST_TL):
+                    out = f()
+            except core.TimeLimit.Expired:
+                c['exc'] = 'timeout'; raise
+            except Exception as ex:  # noqa: B902
+                c['exc'] = ex; raise
+            c['out'] = out; c['snap'] = snapshot(out)
+            if rec is not None:
+                c['stages'] = (rec.sym, rec.clu, rec.clusters, rec.cmatches, rec.psym, rec.pclu)
+            return out
+
+        def decode(self, code, syndrome, **kw):
+            return self._do('ideal', code, 1, syndrome, lambda: inner.decode(code, syndrome, **kw), kw)
+
+        def decode_ftp(self, code, time_steps, syndrome, **kw):
+            return self._do('ftp', code, time_steps, syndrome,
+                            lambda: inner.decode_ftp(code, time_steps, syndrome, **kw), kw)
+
+        @property
+        def label(self):
+            return 'proxy(' + inner.label + ')'
+
+        def __repr__(self):
+            return 'Proxy2({!r})'.format(inner)
+    return Proxy2()
+
+
+def result_arrays(out):
+    """the numpy arrays a caller receives in one answer: [(name, array)]"""
+    from qecsim.model import DecodeResult
+    if isinstance(out, DecodeResult):
+        return [(k, getattr(out, k)) for k in ('recovery', 'custom_values', 'logical_commutations')
+                if isinstance(getattr(out, k), np.ndarray)]
+    return [('recovery', out)] if isinstance(out, np.ndarray) else []
+
+
+def snapshot(out):
+    from qecsim.model import DecodeResult
+    su = out.success if isinstance(out, DecodeResult) else 'n/a'
+    return {'success': su, 'arrays': {k: np.array(a, copy=True) for k, a in result_arrays(out)}}
+
+
+def snapshot_diff(out, snap):
+    """None, or text saying how the answer now differs from what was returned"""
+    from qecsim.model import DecodeResult
+    su = out.success if isinstance(out, DecodeResult) else 'n/a'
+    if su is not snap['success'] and su != snap['success']:
+        return 'success {!r} -> {!r}'.format(snap['success'], su)
+    now = dict(result_arrays(out))
+    for k, a in snap['arrays'].items():
+        if k not in now or np.shape(now[k]) != a.shape or not np.array_equal(now[k], a):
+            return '{} {} -> {}'.format(k, a.tolist(), None if k not in now else np.asarray(now[k]).tolist())
+    return None
+
+
+def hist_steps(rng, fam, eta, tl_pool, n_steps, script=None):
+    """one call history for ONE decoder instance (all inputs fixed up front, so that the history can be replayed):
+    list of step dicts.  Kinds: tl (T>1, constructed time-like failure: the same measurement-flip pattern with odd X-
+    or Z-plaquette parity in every step; rotated toric only), ftp (T>1 direct), ftp1 (T=1 direct), decode (ideal),
+    app (run_once_ftp T>1), app1 (run_once_ftp T=1), once (run_once), runs1 (run_ftp T=1, 2-3 runs), runs (run_ftp T>1),
+    scribble (the caller overwrites the arrays of an earlier answer in place)"""
+    kinds_t = ['tl', 'tl', 'tl', 'ftp', 'ftp1', 'ftp1', 'decode', 'decode', 'app', 'app1', 'app1', 'once', 'runs1',
+               'runs', 'scribble', 'scribble']
+    kinds_p = ['ftp', 'ftp', 'ftp1', 'ftp1', 'decode', 'decode', 'app', 'app1', 'once', 'runs1', 'scribble', 'scribble']
+    steps = []
+    for i in range(n_steps):
+        kind = script[i] if script else rng.choice(kinds_t if fam == 'toric' else kinds_p)
+        size = rng.choice(HIST_SIZES[fam])
+        if isinstance(kind, tuple):
+            kind, size = kind
+        if kind == 'scribble':
+            if not steps:
+                continue
+            steps.append({'call': 'scribble', 'what': rng.choice(['custom_values', 'recovery', 'all']),
+                          'how': rng.choice(['ones', 'flip', 'zeros']), 'back': rng.choice([1, 1, 1, 2, 3])})
+            continue
+        nq = size[0] * size[1]
+        T = 1 if kind in ('ftp1', 'decode', 'app1', 'once', 'runs1') else rng.choice([2, 2, 3, 4] if nq <= 16 else [2, 2, 3])
+        if eta is None:
+            ems = rng.choice(FINITE_DERIVED + [('bpf',), ('bpf',)])
+        else:
+            ems = rng.choice(ANY_MODEL)
+        p = rng.choice([0.05, 0.1, 0.2])
+        q = rng.choice([0.0, 0.1]) if T == 1 else rng.choice([0.05, 0.1, 0.2])
+        st = {'size': list(size), 'T': T, 'em': list(ems), 'p': p, 'q': q, 'kind': kind}
+        if kind in ('tl', 'ftp', 'ftp1', 'decode'):
+            code = make_code(fam, size); S = code.stabilizers; m = S.shape[0]; n = S.shape[1] // 2
+            em = make_em(ems); nprng = np.random.default_rng(rng.getrandbits(63))
+            zero_e, zero_m = np.zeros(2 * n, dtype=int), np.zeros(m, dtype=int)
+            if kind == 'tl':
+                mvec = np.array(rng.choice(tl_pool[tuple(size)]), dtype=int)
+                es = [zero_e] * T
+                if rng.random() < 0.4:
+                    es = [np.array(em.generate(code, p, nprng), dtype=int) if t == 0 else zero_e for t in range(T)]
+                ms = [mvec.copy() for _ in range(T)]
+                if rng.random() < 0.2:   # an extra short-lived flip on top of the wrapping pattern
+                    ms[rng.randrange(T)][rng.randrange(m)] ^= 1
+            else:
+                es = [np.array(em.generate(code, p, nprng), dtype=int) for _ in range(T)]
+                ms = [np.array(gens.rand_bits(rng, m, q), dtype=int) for _ in range(T)]
+            rows = np.array([ms[t - 1] ^ synd(S, es[t]) ^ ms[t] for t in range(T)], dtype=int)
+            if kind == 'decode':
+                st.update(call='decode', rows=mat(rows))
+            else:
+                mk = rng.choice(['L', 'L', 'N', 'E']) if T == 1 else 'L'
+                st.update(call='decode_ftp', rows=mat(rows),
+                          meas='N' if mk == 'N' else 'E' if mk == 'E' else mat(ms))
+        else:
+            st.update(call={'app': 'run_once_ftp', 'app1': 'run_once_ftp', 'once': 'run_once', 'runs1': 'run_ftp',
+                            'runs': 'run_ftp'}[kind], seed=rng.getrandbits(31))
+            if kind in ('app1', 'runs1') and rng.random() < 0.5:
+                st['q'] = None      # default measurement error probability
+            if kind in ('runs1', 'runs'):
+                st['max_runs'] = rng.choice([2, 3])
+        steps.append(st)
+    return steps
+
+
+def hist_exec(dec, fam, st, rec=None):
+    """execute one (non-scribble) step on the decoder instance `dec`; returns (code, proxy, data, exception, warnings)"""
+    from qecsim import app
+    code = make_code(fam, st['size']); em = make_em(tuple(st['em'])); proxy = make_proxy2(dec, rec)
+    data = exc = None
+    with capture_app_warnings() as wc:
+        try:
+            if st['call'] == 'decode_ftp':
+                rows = unmat(st['rows']); meas = _meas_unwire(st['meas'])
+                proxy.decode_ftp(code, st['T'], rows, error_model=em, error_probability=st['p'],
+                                 measurement_error_probability=st['q'], step_measurement_errors=meas)
+            elif st['call'] == 'decode':
+                proxy.decode(code, unmat(st['rows'])[0], error_model=em, error_probability=st['p'])
+            elif st['call'] == 'run_once_ftp':
+                data = app.run_once_ftp(code, st['T'], em, proxy, st['p'], st['q'], np.random.default_rng(st['seed']))
+            elif st['call'] == 'run_once':
+                data = app.run_once(code, em, proxy, st['p'], np.random.default_rng(st['seed']))
+            elif st['call'] == 'run_ftp':
+                data = app.run_ftp(code, st['T'], em, proxy, st['p'], st['q'], max_runs=st['max_runs'],
+                                   random_seed=st['seed'])
+            else:
+                raise core.Infra('unknown history step ' + repr(st))
+        except core.TimeLimit.Expired:
+            exc = 'timeout'
+        except core.Infra:
+            raise
+        except Exception as ex:  # noqa: B902
+            exc = ex
+    return code, proxy, data, exc, wc.msgs
+
+
+def hist_scribble(st, answers):
+    """the caller overwrites arrays of an earlier answer in place (they are the caller's: nothing the decoder returns
+    later may depend on them)"""
+    if not answers:
+        return
+    a = answers[max(0, len(answers) - st['back'])]
+    for k, arr in result_arrays(a['out']):
+        if st['what'] in ('all', k) and isinstance(arr, np.ndarray) and arr.flags.writeable:
+            if st['how'] == 'ones':
+                arr[...] = 1
+            elif st['how'] == 'zeros':
+                arr[...] = 0
+            else:
+                arr[...] = 1 - (arr != 0)
+    a['snap'] = snapshot(a['out'])
+
+
+def hist_app_failures(fam, st, data, calls):
+    """clauses of C03 on what qecsim.app reports for a step run through it"""
+    bad = []
+    if data is None or fam != 'toric' or st['call'] == 'run_once':
+        return bad
+    if st['call'] == 'run_once_ftp':
+        cv = data.get('custom_values')
+        if cv is None or np.shape(cv) != (2,):
+            bad.append('run data lacks the two-element time-parity vector: {!r}'.format(cv))
+        else:
+            nz = bool(np.any(np.asarray(cv) != 0))
+            if nz and data['success'] is not False:
+                bad.append('run reports non-zero time parities {} with success=True'.format(np.asarray(cv).tolist()))
+            if st['T'] == 1 and nz:
+                bad.append('single-step run reports time parity {}'.format(np.asarray(cv).tolist()))
+    elif st['call'] == 'run_ftp':
+        ct = data.get('custom_totals')
+        if ct is None or len(ct) != 2:
+            bad.append('runs data lacks the two time-parity totals: {!r}'.format(ct))
+        else:
+            if st['T'] == 1 and any(ct):
+                bad.append('single-step runs report time-parity totals {}'.format(list(ct)))
+            want = [0, 0]
+            for c in calls:
+                if c['snap'] is not None and 'custom_values' in c['snap']['arrays']:
+                    want = [int(a) + int(b) for a, b in zip(want, c['snap']['arrays']['custom_values'].tolist())]
+            if len(calls) == data.get('n_run') and all(c['snap'] is not None for c in calls) and list(ct) != want:
+                bad.append('time-parity totals {} differ from the sum {} of the vectors the decoder returned'.format(
+                    list(ct), want))
+            if any(ct) and not data.get('n_fail'):
+                bad.append('non-zero time-parity totals {} with no failed run'.format(list(ct)))
+    return bad
+
+
+def run_history(h, upto=None, ctx=None, chk=None, rec=None, stats=None):
+    """run (or re-run) one instance history on a NEW decoder object and evaluate, on every answer: the per-call clauses
+    of C03 (`property_failures`), the app-level clauses, agreement with a fresh instance, no sharing of arrays between
+    answers / with the decoder / with the inputs, and no retroactive change of earlier answers.
+    Returns a list of (step index, failure text, key-suffix).  With ctx/chk given the full Checker (Lean monitor and
+    result-constructor correspondence on the recorded stage outputs) also runs on every answer."""
+    from qecsim.model import DecodeResult
+    fam, eta, itp = h['family'], h['eta'], h['itp']
+    dec = make_decoder(fam, eta, itp)
+    answers = []      # dicts: out, snap, step, scribbled
+    fails = []
+    steps = h['steps'] if upto is None else h['steps'][:upto + 1]
+
+    def rcp(k):
+        return {'history': h, 'upto': k, 'via': 'history'}
+
+    def check_unchanged(k, when):
+        for a in answers:
+            d = snapshot_diff(a['out'], a['snap'])
+            if d:
+                fails.append((k, 'the answer of step {} changed after it was returned ({}): {}'.format(
+                    a['step'], when, d), 'retroactive'))
+                a['snap'] = snapshot(a['out'])
+    for k, st in enumerate(steps):
+        if st['call'] == 'scribble':
+            check_unchanged(k, 'before the caller touched it')
+            hist_scribble(st, answers)
+            continue
+        code, proxy, data, exc, warns = hist_exec(dec, fam, st, rec)
+        if exc == 'timeout':
+            if stats is not None:
+                stats['timeouts'] += 1
+            break
+        S = code.stabilizers
+        if exc is not None and not any(c['exc'] is not None for c in proxy.calls):
+            fails.append((k, '{} raised {!r} {}'.format(st['call'], exc, 'after decoding' if proxy.calls else
+                                                        'before calling the decoder'), 'app-raises'))
+        if any('RECOVERY DOES NOT RETURN TO CODESPACE' in w for w in warns):
+            fails.append((k, "app logged 'RECOVERY DOES NOT RETURN TO CODESPACE'", 'codespace-warning'))
+        for ci, c in enumerate(proxy.calls):
+            T, rows, kw, out = c['T'], c['rows'], c['kw'], c['out']
+            ideal = c['mode'] == 'ideal'
+            meas = kw.get('step_measurement_errors')
+            if c['exc'] is not None:
+                fails.append((k, '{} raised {!r} on an input inside the stated domain'.format(
+                    'decode' if ideal else 'decode_ftp', c['exc']), 'raises'))
+                continue
+            stages = c.get('stages')
+            if chk is not None and stages is not None:
+                rec.sym, rec.clu, rec.clusters, rec.cmatches, rec.psym, rec.pclu = stages
+                n0 = len(ctx.counterexamples)
+                chk.check(fam, tuple(st['size']), code, T, itp, rows, meas, out, None, rcp(k), 'history', ideal=ideal)
+                for ce in ctx.counterexamples[n0:]:
+                    ce['input'] = dict(ce['input'], failing_step=k, step=st)
+            else:
+                for b in property_failures(fam, S, T, itp, rows, out, ideal=ideal):
+                    fails.append((k, b, b.split(' ')[0]))
+            # ---- sharing: with earlier answers, the decoder object, the inputs, the code's cached matrices
+            mine = result_arrays(out)
+            others = [('answer of step {}'.format(a['step']), x) for a in answers for _, x in result_arrays(a['out'])]
+            others += [('decoder attribute ' + nm, v) for nm, v in vars(dec).items() if isinstance(v, np.ndarray)]
+            others += [('syndrome argument', rows), ('code.stabilizers', S), ('code.logicals', code.logicals)]
+            others += [('step_measurement_errors', x) for x in (meas or []) if isinstance(x, np.ndarray)]
+            for i, (nm, arr) in enumerate(mine):
+                for nm2, arr2 in mine[i + 1:]:
+                    if np.shares_memory(arr, arr2):
+                        fails.append((k, 'returned {} and {} share memory'.format(nm, nm2), 'shared'))
+                for wh, x in others:
+                    if np.shares_memory(arr, x):
+                        fails.append((k, 'returned {} shares memory with {}'.format(nm, wh), 'shared'))
+            # ---- the same call on a fresh instance
+            if rec is not None:
+                rec.reset()
+            fresh = make_decoder(fam, eta, itp)
+            fout = fexc = None
+            kw2 = {a: ([np.array(x, copy=True) for x in v] if a in ('step_measurement_errors', 'step_errors') and
+                       v is not None else v) for a, v in kw.items()}
+            try:
+                with core.TimeLimit(HIST_TL):
+                    fout = fresh.decode(code, rows[0].copy(), **kw2) if ideal else \
+                        fresh.decode_ftp(code, T, rows.copy(), **kw2)
+            except core.TimeLimit.Expired:
+                fexc = 'timeout'
+            except Exception as ex:  # noqa: B902
+                fexc = ex
+            if fexc is None:
+                stable = True
+                if rec is not None and stages is not None:
+                    stable = not (stages[3] or rec.cmatches) if fam == 'toric' else not (
+                        (stages[5] is not None and np.any(stages[5])) or (rec.pclu is not None and np.any(rec.pclu)))
+                elif not (T == 1 or itp):
+                    stable = False
+                a_s, f_s = snapshot(out), snapshot(fout)
+                if isinstance(out, DecodeResult) and (T == 1 or itp or stable):
+                    if a_s['success'] != f_s['success'] or not np.array_equal(
+                            a_s['arrays'].get('custom_values'), f_s['arrays'].get('custom_values')):
+                        fails.append((k, 'a reused decoder answers success={!r} custom_values={} where a fresh instance '
+                                         'answers success={!r} custom_values={}'.format(
+                                             a_s['success'], a_s['arrays'].get('custom_values'), f_s['success'],
+                                             f_s['arrays'].get('custom_values')), 'fresh'))
+                if stable and not np.array_equal(a_s['arrays'].get('recovery'), f_s['arrays'].get('recovery')):
+                    fails.append((k, 'a reused decoder returns another recovery than a fresh instance on the same input '
+                                     '(no cluster matching involved)', 'fresh'))
+                if stats is not None:
+                    stats['fresh-compared' if stable else 'fresh-unstable-matching'] += 1
+            answers.append({'out': out, 'snap': c['snap'], 'step': k})
+            check_unchanged(k, 'during a later call')
+        for b in hist_app_failures(fam, st, data, proxy.calls):
+            fails.append((k, b, 'app'))
+        if stats is not None:
+            stats['calls'] += len(proxy.calls)
+            for c in proxy.calls:
+                o = c['out']
+                if isinstance(o, DecodeResult) and o.success is False:
+                    stats['timelike-failures'] += 1
+    check_unchanged(len(steps) - 1, 'at the end of the history')
+    fails.sort(key=lambda f: (f[2] == 'shared', f[0]))    # clauses of the property first, hazards (aliasing) last
+    return fails
+
+
+def part_histories(ctx, chk, rec):
+    """ONE decoder object reused across a sequence of decode_ftp / decode / run_once_ftp / run_once / run_ftp calls mixing
+    T>1 (incl. constructed time-like failures), T=1 and ideal calls on codes of different sizes, with callers that
+    overwrite returned arrays in place"""
+    import random
+    rng = random.Random(ctx.seed * 7919 + 31)
+    # flip patterns with odd X- and/or Z-plaquette parity, taken from the MODEL (`c03 mtp`, measurement_tparities_spec)
+    tl_pool, lines, cands = {}, [], []
+    for size in HIST_SIZES['toric']:
+        m = size[0] * size[1]
+        for _ in range(24):
+            v = [0] * m
+            for i in rng.sample(range(m), rng.choice([1, 1, 2, 3])):
+                v[i] = 1
+            cands.append((size, v)); lines.append('c03 mtp {} {} {}'.format(size[0], size[1], bits(v)))
+    for (size, v), rep in zip(cands, ctx.driver.ask(lines)):
+        if rep in ('1,0', '0,1', '1,1'):
+            tl_pool.setdefault(tuple(size), []).append(v)
+    if any(tuple(s) not in tl_pool for s in HIST_SIZES['toric']):
+        raise core.Infra('no time-like flip pattern found by the model for some size')
+    stats = collections.Counter()
+    scripted = []
+    for follow in ('ftp1', 'decode', 'app1', 'once', 'runs1'):
+        for s1, s2 in (((4, 4), (4, 4)), ((2, 4), (4, 2)), ((6, 4), (2, 2))):
+            scripted.append(('toric', None, False, [('tl', s1), (follow, s2), ('ftp', s1), 'scribble', (follow, s1)]))
+    scripted.append(('toric', 10, False, [('tl', (4, 4)), 'scribble', ('ftp1', (4, 4)), ('tl', (2, 2)), ('decode', (6, 2))]))
+    scripted.append(('toric', None, True, [('tl', (4, 4)), ('ftp1', (4, 4)), ('ftp', (2, 4)), ('decode', (2, 4))]))
+    scripted.append(('planar', None, False, [('ftp', (3, 3)), ('ftp1', (4, 3)), 'scribble', ('decode', (3, 3)),
+                                             ('app1', (3, 5)), ('once', (3, 3))]))
+    n_rand = ctx.scale(110, 800)
+    n_hist = 0
+    for i in range(len(scripted) + n_rand):
+        if i < len(scripted):
+            fam, eta, itp, script = scripted[i]; n_steps = len(script)
+        else:
+            fam = rng.choice(['toric', 'toric', 'toric', 'planar'])
+            eta = rng.choice([None, None, 0.5, 10]); itp = fam == 'toric' and rng.random() < 0.15
+            script = None; n_steps = rng.randint(3, 8)
+        h = {'family': fam, 'eta': eta, 'itp': bool(itp), 'steps': hist_steps(rng, fam, eta, tl_pool, n_steps, script)}
+        fails = run_history(h, None, ctx, chk, rec, stats)
+        n_hist += 1
+        ctx.count('history.family', fam); ctx.count('history.steps', len(h['steps']))
+        for st in h['steps']:
+            ctx.count('history.call', st.get('kind', st['call']))
+        seen = set()
+        for k, what, suffix in fails:
+            if (k, what) in seen:
+                continue
+            seen.add((k, what))
+            ctx.monitor_fail('decoder-instance history, step {} ({}): {}'.format(k, h['steps'][k].get('kind', h['steps'][k]['call']), what),
+                             {'history': h, 'upto': k, 'via': 'history', 'failing_step': k, 'step': h['steps'][k]},
+                             key='Rotated{}SMWPM.history:{}'.format('Planar' if fam == 'planar' else 'Toric', suffix))
+    return n_hist, stats
+
+
 # ----------------------------------------------------------------------------------------------- entry points
 
 def run(ctx):
@@ -889,14 +1311,19 @@ def run(ctx):
         t = time.time()
         n_rand, timeouts = part_app_runs(ctx, chk, rec)
         ctx.extra['app_runs_s'] = round(time.time() - t, 1)
+        t = time.time()
+        n_hist, hstats = part_histories(ctx, chk, rec)
+        ctx.extra['histories_s'] = round(time.time() - t, 1)
+        timeouts += hstats.pop('timeouts', 0)
     if timeouts:
         ctx.extra['timeouts'] = ctx.extra.get('timeouts', 0) + timeouts
-    ctx.counterexamples.sort(key=lambda c: 0 if isinstance(c.get('input'), dict) and 'rows' in c['input'] else 1)
+    ctx.counterexamples.sort(key=lambda c: 0 if isinstance(c.get('input'), dict) and (
+        'rows' in c['input'] or 'history' in c['input']) else 1)
     if HOOKS_MISSING:
         # the stage functions the tie (a) observes are gone: the correspondence can no longer be evaluated
         ctx.case('c03 hooks ' + ','.join(sorted(set(HOOKS_MISSING))), 'present', meta={'part': 'hooks'})
     if os.environ.get('QV_DEBUG'):
-        print('[c03]', ctx.extra, 'exh', n_exh, 'rand', n_rand, [(d['family'], d['size'], d['T'], d['context'], d['arrays'], d['s'])
+        print('[c03]', ctx.extra, 'exh', n_exh, 'rand', n_rand, 'hist', n_hist, dict(hstats), [(d['family'], d['size'], d['T'], d['context'], d['arrays'], d['s'])
                                                                   for d in domains if d['s'] > 1.0])
     mon_rule = ('synd(code.stabilizers, recovery) == XOR of the rows handed to decode_ftp (Python and Lean driver), no '
                 'exception, recovery present, no codespace warning from app, custom_values/success consistent')
@@ -910,6 +1337,15 @@ def run(ctx):
             'rule': 'decode_ftp called directly on EVERY array of `reachable` (characterised by reachable_iff_mid/'
                     '_zero/_one) for each listed (lattice, T, decoder context); monitor: ' + mon_rule},
     }
+    ctx.explored['smwpm_decoder_instance_histories'] = {
+        'evaluations': int(hstats.get('calls', 0)), 'exhaustive': False, 'histories': n_hist,
+        'timelike_failures_in_histories': int(hstats.get('timelike-failures', 0)),
+        'compared_with_fresh_instance': int(hstats.get('fresh-compared', 0)),
+        'rule': 'ONE decoder object reused over 3-8 calls (decode_ftp T>1 incl. flip patterns that wrap the periodic time '
+                'axis, decode_ftp T=1, decode, app.run_once_ftp / run_once / run_ftp) on codes of different sizes, the caller '
+                'overwriting returned arrays in place in between; on every answer: monitor: ' + mon_rule + ', same answer '
+                'as a fresh instance, no array shared between answers / with the decoder / with the arguments, earlier '
+                'answers unchanged'}
     ctx.assumptions = [
         'the recovery construction of the SMWPM decoders (graph nodes/edges, clustering, paths, final XOR) is modelled in '
         'Model/Smwpm.lean and proved to return to the code space for ANY perfect matchings; edge weights and gt.mwpm '
@@ -999,11 +1435,12 @@ def replay(ctx, path):
         ce = v.get('counterexample') or {}
         inp = ce.get('input') if isinstance(ce.get('input'), dict) else {}
         mm = v.get('first_mismatch') or {}
-        rc = (inp if 'rows' in inp else None) or ce.get('recipe') or (mm.get('meta') or {}).get('recipe')
+        rc = (inp if 'rows' in inp or 'history' in inp else None) or ce.get('recipe') or (mm.get('meta') or {}).get('recipe')
         op = ce.get('op') or inp.get('op') or mm.get('op') or ''
         if rc:
             fails, txt = run_recipe(rc)
-            print('replay', {k: rc[k] for k in ('family', 'size', 'T', 'eta', 'itp', 'em', 'p', 'qeff')}, '->',
+            print('replay', {k: rc[k] for k in ('family', 'size', 'T', 'eta', 'itp', 'em', 'p', 'qeff', 'upto') if k in rc}
+                  or 'history', '->',
                   fails or 'property holds', '|', txt[:200])
             bad += bool(fails)
         elif op.startswith('c03 fin'):
